@@ -144,10 +144,28 @@ def production_tables(chk, rng, thorough):
                 n, w[3][:60], w[2][:60], ln[:150]))
             break
         same += 1
+    # the whole section = the model's section writer applied to the decoded distributions and sequences, and the side
+    # conditions of C12_sequence_section_roundtrip hold on it (so the theorem speaks about this very section)
+    sres = model_run('seqsection', ['%d %s' % (n, hexs(src)) for (ln, n, m, src) in sections])
+    whole = 0
+    for (ln, n, m, src), r in zip(sections, sres):
+        w = (r or 'missing').split()
+        if len(w) < 3 or w[0] != 'ok':
+            chk.tie_broken('correspondence:sequence-section', 'the model cannot decode and rewrite a sequences section the compressor wrote: %s (%d sequences); %s' % (r[:60], n, ln[:150]))
+            break
+        if w[2] != hexs(src):
+            chk.tie_broken('correspondence:sequence-section', 'the modelled sequences section (descriptions + stream) differs from the one the compressor wrote (%d sequences): model %s.. real %s..; %s' % (
+                n, w[2][:60], hexs(src)[:60], ln[:150]))
+            break
+        if w[1] != '1':
+            chk.tie_broken('model:sequence-section', 'a section the compressor wrote does not meet the side conditions of the section round-trip theorem (%d sequences); %s' % (n, ln[:150]))
+            break
+        whole += 1
     chk.add_samples('production-tables', len(lines), len(set(lines)), [{'command': lines[0][:120]}],
                     rule='blocks whose offset codes have a flat histogram over codes 5..15 plus one rare code (normalised sum above 256), with fixed and varied literal / match length codes, compressed through a scripted matcher; every table description in the emitted blocks is parsed with an independent RFC reader under the format limits')
     chk.cov['components']['production-tables'].update({'descriptions_parsed': seen, 'largest_accuracy_log': maxlog,
-                                                        'sequence_sections': len(sections), 'sequence_streams_reencoded_identically': same})
+                                                        'sequence_sections': len(sections), 'sequence_streams_reencoded_identically': same,
+                                                        'sections_rewritten_identically_with_side_conditions': whole})
 
 
 def run(chk):
